@@ -47,7 +47,15 @@ func fakeSSHD(args []string) int {
 	logPath := fs.String("log", "", "")
 	play := fs.String("play", "", "")
 	closeAfter := fs.Int("closeAfterMs", 300, "")
+	delays := fs.String("delays", "", "port:ms,... delay before the handshake starts")
 	fs.Parse(args)
+	delayOf := map[int]int{}
+	for _, d := range strings.Split(*delays, ",") {
+		var p, ms int
+		if n, _ := fmt.Sscanf(d, "%d:%d", &p, &ms); n == 2 {
+			delayOf[p] = ms
+		}
+	}
 
 	var signers []ssh.Signer
 	for _, p := range strings.Split(*hostkeys, ",") {
@@ -100,7 +108,12 @@ func fakeSSHD(args []string) int {
 				}
 				idx := n
 				n++
-				go serveFake(c, port, idx, signers, playBytes, *closeAfter, emit)
+				go func() {
+					if ms := delayOf[port]; ms > 0 {
+						time.Sleep(time.Duration(ms) * time.Millisecond)
+					}
+					serveFake(c, port, idx, signers, playBytes, *closeAfter, emit)
+				}()
 			}
 		}(port, l)
 	}
@@ -200,6 +213,10 @@ type fakeSSHDProc struct {
 }
 
 func startFakeSSHD(r *vlib.Run, name string, ports []int, hostKeyFiles []string, playFile string, closeAfterMs int) (*fakeSSHDProc, error) {
+	return startFakeSSHDDelayed(r, name, ports, hostKeyFiles, playFile, closeAfterMs, "")
+}
+
+func startFakeSSHDDelayed(r *vlib.Run, name string, ports []int, hostKeyFiles []string, playFile string, closeAfterMs int, delays string) (*fakeSSHDProc, error) {
 	dir := r.Dir("fakesshd-" + name)
 	logPath := dir + "/events.jsonl"
 	os.Remove(logPath)
@@ -211,6 +228,9 @@ func startFakeSSHD(r *vlib.Run, name string, ports []int, hostKeyFiles []string,
 		"-log", logPath, "-closeAfterMs", strconv.Itoa(closeAfterMs)}
 	if playFile != "" {
 		args = append(args, "-play", playFile)
+	}
+	if delays != "" {
+		args = append(args, "-delays", delays)
 	}
 	d, err := vlib.StartDaemon(r.Bin("vcheck"), args, nil, dir, dir+"/fakesshd.out")
 	if err != nil {
